@@ -171,6 +171,36 @@ static void test_cf() {
       expect(hypotq(a.x - b.x, a.y - b.y) < 1e-20Q * E.a, "LCC(90,90) equals polar stereographic", (double)hypotq(a.x - b.x, a.y - b.y), 1e-14);
     }
   }
+  // (12) nearly cylindrical cones: the cancellation-free evaluation used by the oracle equals the naive Snyder forms where those still have > 15 spare digits (n ~ 1e-6),
+  //      and tends to Mercator / cylindrical equal area with a difference O(n) for n ~ 1e-12 .. 1e-300
+  for (double f : {1 / 298.257223563, -0.1}) {
+    Ell E(6378137.0, f);
+    for (double sl : {1e-4, -1e-4}) {
+      Lat L1 = proj_cf::latd(sl); proj_cf::LCC lc(E, L1, L1, 0.994); proj_cf::Albers al(E, L1, L1, 0.994);
+      for (double lat : {-80.0, -1.0, 0.0, 33.0, 89.0}) for (double lon : {1e-9, 40.0, -179.0}) {
+        Lat L = proj_cf::latd(lat); Q lam = Q(lon) * proj_cf::deg();
+        XY a = lc.fwd(L, lam); Q r = lc.rho(L), th = lc.n * lam, r0 = lc.rho(proj_cf::latr(lc.phi0));
+        Q e1 = hypotq(a.x - r * sinq(th), a.y - (r0 - r * cosq(th)));
+        expect(e1 < 1e-15Q, "LCC: cancellation-free form equals Snyder 14-1/14-2 (n = 1.7e-6)", (double)e1, 1e-15);
+        XY b = al.fwd(L, lam); Q ra = al.rho(L), tha = al.n * lam, ra0 = al.rho(proj_cf::latr(al.phi0));
+        Q e2 = hypotq(b.x - ra * sinq(tha), b.y - (ra0 - ra * cosq(tha)));
+        expect(e2 < 1e-15Q, "Albers: cancellation-free form equals Snyder 14-1/14-2 (n = 1.7e-6)", (double)e2, 1e-15);
+      }
+    }
+    proj_cf::LCC m0(E, proj_cf::latd(0), proj_cf::latd(0), 0.994); proj_cf::Albers c0(E, proj_cf::latd(0), proj_cf::latd(0), 0.994);
+    for (double sl : {1e-10, -1e-10, 1e-300}) {
+      Lat L1 = proj_cf::latd(sl); proj_cf::LCC lc(E, L1, L1, 0.994); proj_cf::Albers al(E, L1, L1, 0.994);
+      for (double lat : {-80.0, 33.0, 89.0}) for (double lon : {40.0, -179.0}) {
+        Lat L = proj_cf::latd(lat); Q lam = Q(lon) * proj_cf::deg();
+        XY a = lc.fwd(L, lam), am = m0.fwd(L, lam), b = al.fwd(L, lam), bm = c0.fwd(L, lam);
+        // y is measured from the origin latitude sl (not the equator): shift by the Mercator / cylindrical ordinate of sl
+        Q sh1 = m0.fwd(L1, 0).y, sh2 = c0.fwd(L1, 0).y;
+        Q t = E.a * fabsq(lc.n) * 400;
+        expect(hypotq(a.x - am.x, a.y - (am.y - sh1)) < t + 1e-20Q, "LCC(n ~ 1e-12 .. 1e-302) tends to Mercator", (double)hypotq(a.x - am.x, a.y - (am.y - sh1)), (double)t);
+        expect(hypotq(b.x - bm.x, b.y - (bm.y - sh2)) < t + 1e-20Q, "Albers(n ~ 1e-12 .. 1e-302) tends to cylindrical equal area", (double)hypotq(b.x - bm.x, b.y - (bm.y - sh2)), (double)t);
+      }
+    }
+  }
   // (11) sphere: textbook spherical forms
   {
     Ell E(1.0, 0.0);
